@@ -1,5 +1,6 @@
 import GqlModel.DefaultResolve
 import GqlProofs.DefaultResolve
+import Generated.Tables
 /-! # C01 / C20 — the default resolver (`DefaultResolveFn`, executor.go 510-583)
 
 A field without a `Resolve` function is resolved by reading the property named by the field out of the parent
@@ -181,5 +182,25 @@ example : unambiguousB
     ["id", "title", "n"] = true := by decide
 
 example : wellFormed (.mapRefl true .func0 [("f", .func0 7)]) = true := by decide
+
+/-! ## Regenerated tie: the constants the model hard-codes
+
+`harness/cmd/extract/defresolve.go` lists, from the current source of `DefaultResolveFn`, in source order: the
+type assertions on the parent value and its properties, how the Go field name is compared, how a tag is split and
+which segment counts, and which tags are consulted in which order. The model's `fieldMatches` (`equalFold` on the
+name, `tagHead` = segment 0 of a comma split, `json` before `graphql`), `ifaceProperty` / `reflProperty`
+(`func() interface{}` is the one func type that is called) and the `resolver` source kind are written against
+exactly these constants. -/
+theorem default_resolver_constants_as_modelled :
+    Generated.defaultResolveConstants =
+      [("assert", "FieldResolver"),
+       ("nameMatch", "strings.EqualFold(typeField.Name, p.Info.FieldName)"),
+       ("tagSplit", "strings.Split(t, \",\")"),
+       ("tagSegment", "0"),
+       ("tag", "json"),
+       ("tag", "graphql"),
+       ("assert", "map[string]interface{}"),
+       ("assert", "func() interface{}"),
+       ("assert", "func() interface{}")] := by decide
 
 end GqlModel.DefaultResolve
